@@ -5,6 +5,9 @@ from __future__ import annotations
 import difflib
 import json
 
+import random
+import impl
+import sites
 import common
 import callshapes
 import progspace
@@ -86,7 +89,63 @@ def declined(cid: str, text: str) -> bool:
     return False
 
 
+# (first codemod, rule-detected second codemod): the first one moves the second one's finding (adds an import line above it);
+# pairs in which the first rewrite *creates* the second one's trigger are C09's recorded prefilter finding and are not used here
+SHIFT_PAIRS = [("pixee:python/secure-random", "pixee:python/requests-verify"), ("pixee:python/secure-random", "pixee:python/harden-pyyaml"),
+               ("pixee:python/use-defusedxml", "pixee:python/secure-random"), ("pixee:python/secure-tempfile", "pixee:python/subprocess-shell-false")]
+
+
+def shift_case(case):
+    """one run with two codemods: the second one still acts on what its own rule reports in the code it is given"""
+    import e2e
+    import shutil
+    from codemodder.registry import load_registered_codemods
+
+    rng = random.Random(case["seed"])
+    seeds = e2e.load_seeds()
+    a, b = case["pair"]
+    cm = next(c for c in load_registered_codemods().codemods if c.id == b)
+    root = common.tmpdir("c18p")
+    try:
+        sa, sb = rng.choice(seeds[a]), rng.choice(seeds[b])
+        ha, ba = sites.split_seed(sa)
+        hb, bb = sites.split_seed(sb)
+        text = "".join(dict.fromkeys(ha + hb)) + "".join(ba) + "\n" + "".join(bb)
+        try:
+            compile(text, "x", "exec")
+        except SyntaxError:
+            return {"drop": "compile"}
+        if declined(b, text) or declined(a, text):
+            return {"drop": "declined"}
+        proj = root / "p"
+        e2e.write_project(proj, {"m.py": text})
+        flagged0 = progspace.semgrep_flag(cm, [proj / "m.py"])
+        r = e2e.run(proj, ["--codemod-include", f"{a},{b}"])
+        after = (proj / "m.py").read_text()
+        flagged1 = progspace.semgrep_flag(cm, [proj / "m.py"])
+        failed = [f for res in (r["report"] or {}).get("results", []) if res["codemod"] == b for f in (res.get("failedFiles") or [])]
+        changed_by = [res["codemod"] for res in (r["report"] or {}).get("results", []) if res["changeset"]]
+        return {"rc": r["rc"], "before": text, "after": after, "flagged0": bool(flagged0), "flagged1": list(flagged1.values()), "failed": failed, "changed_by": changed_by}
+    finally:
+        shutil.rmtree(root, ignore_errors=True)
+
+
 def search(ctx):
+    cases = [{"pair": p, "seed": ctx.rng.randint(0, 10**9)} for p in SHIFT_PAIRS for _ in range(ctx.pick(1, 4))]
+    for c, r in zip(cases, impl.pool_map(shift_case, cases)):
+        if r[0] != "ok":
+            ctx.broke("c18 pair harness", r[1]); continue
+        r = r[1]
+        if "drop" in r:
+            ctx.dropped += 1; continue
+        a, b = c["pair"]
+        ctx.search_case("shifted-by-earlier-codemod", {"pair": list(c["pair"]), "seed": c["seed"]}, r["flagged0"] and a in r["changed_by"])
+        if r["rc"] != ["exit", 0]:
+            ctx.fail({"kind": "cli-crash", "pair": list(c["pair"])}, f"CLI failed {r['rc']}", {"case": c})
+        elif r["flagged0"] and r["flagged1"] and not r["failed"] and not shadowed(r["after"]):
+            ctx.fail({"kind": "flagged-not-handled", "codemod": b, "after": a},
+                     f"{b}, run after {a} in one invocation: its rule reports {r['flagged1']} in the final file, which is neither rewritten there nor listed as failed",
+                     {"case": c, "before": r["before"], "after": r["after"], "changed_by": r["changed_by"]})
     res = progspace.run_pass(ctx.tier, ctx.seed)
     n_sem = 0
     for cid, r in sorted(res.items()):
